@@ -1,12 +1,36 @@
 /-
 Props/C15.lean — property theorems for C15 (no reflection, no allocation, alias of the live element).
+
+What is proved: no generated file imports `reflect` (over the import table regenerated on every run), and —
+for every type tree, value and path of the property's path class — the address-of decisions of get mode
+hand out a reference into the object itself (`alias_live`), for the emitter as it is (the alias model has no
+defect switch). What a theorem cannot show: the allocation counts; they are measured by the harness
+(`testing.AllocsPerRun` on every record of the class) and compared with zero — supporting evidence, partial.
 -/
-import InspectorModel.Gen.Alias
+import InspectorModel.Proofs.C15
 import InspectorModel.Extracted.Imports
 namespace Inspector.C15
 
 /-- No generated file (committed, regenerated for testobj, generated for the grammar slice of this run)
 imports `reflect`. The import sets are extracted from the files on every run. -/
 theorem no_reflect : generatedImportSets.all (fun s => !s.contains "\"reflect\"") = true := by decide
+
+/-- On every path made of struct fields, non-nil pointers and struct-slice indices that ends on an existing
+scalar, string or bytes element, the reference GetTo hands out is the address of the live element. -/
+theorem alias_live (n : Node) (v : Val) (p : List Seg) (hok : AliasOK n = true)
+    (h : inAliasClass n v p = true) : aliasN n v p true = some true :=
+  aliasN_live p n v hok h
+
+section NonVacuity
+def exNode : Node :=
+  .struct { typn := "T" } [
+    .slice { typn := "[]*Inner", name := "L" } (.struct { typn := "Inner", ptr := true } [.basic { typn := "int", typu := "int", name := "A" }])]
+def exVal : Val := .struct [.slice false [.ptr (.struct [.int 3])] 1]
+def exPath : List Seg := [{ text := strBytes "L" }, { text := strBytes "0", pi := some 0 }, { text := strBytes "A" }]
+example : AliasOK exNode = true ∧ inAliasClass exNode exVal exPath = true := by decide +kernel
+/-- Outside the class the reference may be a copy: an element of a map is a local copy. -/
+example : aliasN (.map { typn := "map[string]int" } (.basic { typn := "string", typu := "string" }) (.basic { typn := "int", typu := "int" }))
+    (.map false [.str (strBytes "a")] [.int 1]) [{ text := strBytes "a" }] true = some false := by decide +kernel
+end NonVacuity
 
 end Inspector.C15
